@@ -133,9 +133,10 @@ def check_read(mido, type_, tpb, specs, acc, dev_bound):
             cls = ('running-status' if runs else '') + (
                 '+' + '+'.join(sorted({d[0] for d in devs})) if devs else '')
             for name, kwargs in (('plain', {}), ('clip', {'clip': True}),
-                                 ('debug', {'debug': True})):
+                                 ('debug', {'debug': True}),
+                                 ('debug+clip', {'debug': True, 'clip': True})):
                 try:
-                    if name == 'debug':
+                    if name.startswith('debug'):
                         with contextlib.redirect_stdout(io.StringIO()):
                             got = load_sigs(mido, data, **kwargs)
                     else:
@@ -202,6 +203,19 @@ def check_clip(mido, specs, acc):
                 orig = [x for x in mf.tracks[0]
                         if x.type != 'end_of_track'][idx] if False else None
                 exp.append(None)
+            # the same with debug output on
+            try:
+                with contextlib.redirect_stdout(io.StringIO()):
+                    got_dbg = load_sigs(mido, data, clip=True, debug=True)
+                if got_dbg != got:
+                    acc.violation('clip/debug-differs',
+                                  f'{data.hex()}: clip=True, debug=True loaded '
+                                  f'{short(got_dbg, 300)}, without debug '
+                                  f'{short(got, 300)}', case)
+            except Exception as e:
+                acc.violation(f'clip/debug-raises/{type(e).__name__}',
+                              f'{data.hex()}: clip=True, debug=True raised '
+                              f'{e!r}', case)
             try:
                 f = load_bytes(mido, data, clip=True)
                 msgs = f.tracks[0]
@@ -322,7 +336,7 @@ def run():
         f'read: every track of length <= {nr}: all 2^r running-status subsets '
         f'(r <= 4) and every set of <= {dev} deviations among header length '
         f'7/8/12 and 1-2 redundant 0x80 bytes on any delta or length, loaded '
-        f'plain, with clip=True and with debug=True (stdout captured): '
+        f'plain, with clip=True, with debug=True and with both (stdout captured): '
         f'identical messages. clip: every channel-message data byte replaced '
         f'by 0x80/0xF7/0xFF: clip=False raises, clip=True loads the list with '
         f'127 there. long: sysex / text / unknown-meta payloads of 127..70000 '
